@@ -255,9 +255,28 @@ def add_inject(case: dict) -> dict:
                 tail.append({"op": "inject", "node": r, "ifc": i, "from": h, "dst": dst, "ttl": ttl})
         if remote and len(case["ops"]) % 2 == 0 and not head:
             head.append({"op": "inject", "node": r, "ifc": i, "from": h, "dst": remote[0], "ttl": 2})
-    if tail:
-        case["ops"] = head + case["ops"] + tail[:18]
-        case.setdefault("notes", {})["inject"] = len(head) + len(tail[:18])
+    tail = tail[:18]
+    # echo requests handed to HOST NICs (`NIC.receive_frame`), layer-2 addressed to the arrival NIC: IP-addressed to that NIC, to the
+    # host's OTHER NIC (dual-homed hosts: accepted by the NIC, `_process_icmp_echo_request` must not answer: the destination is not
+    # the arrival interface's address), and to a foreign address (the NIC must not hand it to software at all)
+    htail = []
+    for h, hd in hosts:
+        others = [x for x, _ in hosts if x != h]
+        if not others:
+            continue
+        own = [hd["ip"]] + [x["ip"] for x in hd.get("extra", [])]
+        if len(own) < 2 and htail:
+            continue  # single-homed: one host per case is enough
+        for j in range(len(own)):
+            if (h, j) not in linked:
+                continue
+            for dst in own + [nodes[others[0]]["ip"]]:
+                htail.append({"op": "inject", "node": h, "ifc": j, "from": others[0], "dst": dst, "ttl": 64})
+            htail.append({"op": "inject", "node": h, "ifc": j, "from": others[0], "dst": own[j], "ttl": 1})
+    htail = htail[:12]
+    if tail or htail:
+        case["ops"] = head + case["ops"] + tail + htail
+        case.setdefault("notes", {})["inject"] = len(head) + len(tail) + len(htail)
     return case
 
 
